@@ -26,6 +26,15 @@ From MTV Require Import Crypto.Ige Crypto.IgeMem Crypto.IgeProofs Crypto.TempKey
 Import ListNotations.
 Open Scope nat_scope.
 
+(* PRECONDITION of every statement about do_encrypt / do_decrypt: the input and the output buffer do not
+   overlap.  In the model they are two separate lists; in the code the chaining register aliases in[i:i+16]
+   (c.y resp. c.x), so with out == in (or overlapping windows) copy(out[i:], c.t) overwrites the previous
+   plaintext/ciphertext block before it is used and the result is NOT the IGE definition from block 1 on.
+   doAES256IGEencrypt/decrypt and the Cipher methods are unexported; every call site in the repository passes a
+   fresh make([]byte, len) as out.  That is re-established on every run by a static scan of the call sites
+   (harness/root/cmd/c05 scan: each call's out argument must be a local defined by make([]byte, ...) in the same
+   function and different from the in argument; a new call site that does not fit is reported). ---- *)
+
 (* ---- 1. the alias-level loops compute the IGE definition, for any number n >= 1 of blocks ---- *)
 Theorem C05_enc_is_ige : forall (E : bytes -> bytes -> bytes),
   (forall k b, length (E k b) = 16) ->
@@ -276,6 +285,53 @@ Proof.
   - intros rnd Hr Or NC. apply (temp_roundtrip_own H E D HL HO EL DL EO DE); assumption.
 Qed.
 Print Assumptions C05_temp_roundtrip.
+
+(* ---- 7b. TryDecryptMessageWithTempKeys - the entry the handshake uses on data from the NETWORK - for EVERY
+        ciphertext and every pair of nonces (no premise at all on the input):
+        it never panics; it returns m exactly when the length is a positive multiple of 16 and at least 20 and m is
+        the decrypted body with the fewest trailing bytes i in 0..15 removed such that SHA1(m) equals the first 20
+        decrypted bytes; otherwise it returns an error.  [trydec_temp] is Crypto/TempKeys.v's model of it (error
+        returns are Err, the two slice expressions keep their bounds tests, so "never Panic" is not by construction);
+        DecryptMessageWithTempKeys is check(err) around it (C05_decrypt_is_checked_try). ---- *)
+Theorem C05_try_decrypt_spec : forall (H : bytes -> bytes) (D : bytes -> bytes -> bytes),
+  (forall m, length (H m) = 20) -> (forall k b, length (D k b) = 16) ->
+  forall msg n1 n2,
+  exists key iv, generate_temp_keys H n1 n2 = Ok (key, iv) /\
+  let dec := ige_decrypt D key iv msg in
+  let body := skipn 20 dec in
+  match trydec_temp H D msg n1 n2 with
+  | Panic => False
+  | Ok m => is_correct_data msg = true /\ 20 <= length msg /\
+            exists i, i <= 15 /\ i <= length msg - 20 /\ m = firstn (length msg - 20 - i) body /\
+                      H m = firstn 20 dec /\
+                      (forall i', i' < i -> H (firstn (length msg - 20 - i') body) <> firstn 20 dec)
+  | Err => is_correct_data msg = false \/ length msg < 20 \/
+           (forall i, i <= 15 -> i <= length msg - 20 -> H (firstn (length msg - 20 - i) body) <> firstn 20 dec)
+  end.
+Proof. exact trydec_temp_spec. Qed.
+Print Assumptions C05_try_decrypt_spec.
+
+Theorem C05_try_decrypt_never_panics : forall (H : bytes -> bytes) (D : bytes -> bytes -> bytes),
+  (forall m, length (H m) = 20) -> (forall k b, length (D k b) = 16) ->
+  forall msg n1 n2, trydec_temp H D msg n1 n2 <> Panic.
+Proof. exact trydec_temp_no_panic. Qed.
+Print Assumptions C05_try_decrypt_never_panics.
+
+Theorem C05_try_decrypt_never_panics_inst : forall msg n1 n2, trydec_temp sha1 aes_dec msg n1 n2 <> Panic.
+Proof. exact (trydec_temp_no_panic sha1 aes_dec sha1_length aes_dec_length). Qed.
+Print Assumptions C05_try_decrypt_never_panics_inst.
+
+Theorem C05_decrypt_is_checked_try : forall (H : bytes -> bytes) (D : bytes -> bytes -> bytes) msg n1 n2,
+  (forall m, length (H m) = 20) ->
+  decrypt_temp H D msg n1 n2 = match trydec_temp H D msg n1 n2 with Ok m => Ok m | _ => Panic end.
+Proof. exact decrypt_temp_is_checked_try. Qed.
+Print Assumptions C05_decrypt_is_checked_try.
+
+(* both outcomes of the match occur: a 16-byte ciphertext (no room for the hash) and an empty one are errors *)
+Example C05_try_decrypt_short :
+  trydec_temp sha1 aes_dec (repeat 0%N 16) 5%N 7%N = Err /\ trydec_temp sha1 aes_dec [] 5%N 7%N = Err /\
+  trydec_temp sha1 aes_dec (repeat 0%N 48) 5%N 7%N = Err.
+Proof. vm_compute. repeat split; reflexivity. Qed.
 
 (* with the Gallina SHA-1 and AES the ONLY hypothesis left is the explicit SHA-1 no-collision one *)
 Theorem C05_temp_roundtrip_inst :
